@@ -48,7 +48,8 @@ LEVEL_TEXT = ("Differential between the preview tree and the tree after apply, "
               "do not hide others. Conflict resolution is run to its end and "
               "must finish conflict-free or with MalformedTransform and an "
               "untouched tree.")
-LEVEL_NOTE = ("Sampled. 21 open finding signatures (9 root causes) are listed; "
+LEVEL_NOTE = ("Sampled. 20 open finding signatures (about 12 root causes) "
+              "are listed; "
               "cases that hit a resolver crash end there, the rest of the "
               "space is searched normally.")
 REGISTERED = False
@@ -65,7 +66,8 @@ REPORT_LAST = tuple(
     for a in DELEGATING_ACCESSORS.values()) + (
     "C14/preview-wrong-at-path-reused-after-deletion",
     "C14/preview-get_file-looks-up-new-file-id-in-original-tree",
-    "C14/git-directory-move-leaves-children-at-old-index-paths")
+    "C14/git-directory-move-leaves-children-at-old-index-paths",
+    "C14/applied-tree-has-path-missing-from-preview:git")
 
 SIG_ATTR = {
     "kind": "kind", "stored_kind": "stored_kind", "versioned": "is_versioned",
